@@ -88,7 +88,7 @@ PROPS = {
                      "range start/end multiples of the write size (implied by a successful erase in `new`)"],
     ),
     "C07": dict(
-        modules=["Fuota.Props.C07", "Fuota.Props.C07b"],
+        modules=["Fuota.Props.C07", "Fuota.Props.C07b", "Fuota.Props.C07c"],
         suites=[dict(name="d5r", cfg="matrix", keys=["res", "recv", "total", "complete", "s0", "s1", "s2", "s3", "s4", "s5"])],
         rule="per generated session: the uninterrupted run is recorded, then for every position between two operations "
              "(sampled in quick tier; always incl. before the first fragment and after completion before the mark) a twin "
